@@ -8,7 +8,7 @@ import re
 
 from .. import accept, pp
 from ..facts import AnchorMissing
-from ..guards import analysis, closure_info, closure_ret, subst_upvars, as_cmp
+from ..guards import analysis, closure_info, closure_ret, subst_upvars, as_cmp, truth_of
 from ..sym import Sym
 from ..terms import strip, short, cname, unmut, show
 from .common import int_conversion_ranges, ranges_of
@@ -23,7 +23,7 @@ LEAVES = {"winnow::binary::le_u24": ("le_u24", 3), "winnow::binary::le_u32": ("l
           "winnow::binary::be_u16": ("be_u16", 2), "winnow::binary::be_u32": ("be_u32", 4)}
 # combinators that only ever produce ErrMode::Backtrack on a complete stream and restore the checkpoint
 BACKTRACKING = {"alt", "repeat", "separated_foldl1", "value", "verify", "try_map", "map", "void", "trace", "take", "seq",
-                "lit", "leaf", "ref"}
+                "lit", "leaf", "ref", "skip"}
 
 
 class G:
@@ -54,10 +54,19 @@ class Builder:
         self.stream_types = set()
 
     # -------------------------------------------------------------- function / closure bodies
-    def body_grammar(self, path, captured=None, depth=0):
+    def body_grammar(self, path, captured=None, depth=0, parent=None):
         """Seq of the parse_next calls of a parser function or seq!-closure, in dominance order."""
         if depth > 12:
             return G("deep")
+        # words parsed earlier that this body computes fields from: closure captures that are outputs of the parent's
+        # parse calls (`temp` inside seq!{..}), or this body's own `parse_next(..)?` results
+        self.words = {}
+        if captured and parent:
+            pan, pcalls = parent
+            for j, c in enumerate(captured):
+                w = self.which_call(pan, pcalls, c)
+                if w != "?":
+                    self.words[("cap", j)] = "^%s" % w
         b = self.prog.bodies.get(path)
         if b is None:
             return G("unknown", name=path)
@@ -70,14 +79,19 @@ class Builder:
         calls.sort(key=lambda c: order.index(c[0]))
         kids = []
         names = {}
+        words_here = dict(self.words)
         for i, (bb, t) in enumerate(calls):
             ga = t.get("gargs") or []
             if len(ga) >= 2:
                 self.stream_types.add(pp.ty(ga[1]))
             pt = an.terms.operand(t["args"][0])
+            self._parent = (an, calls)
             g = self.parser_grammar(an, sy, pt, captured, depth + 1)
             g.attr["#"] = i + 1
             kids.append(g)
+        self.words = words_here
+        for i, (bb, t) in enumerate(calls):
+            self.words[("call", bb)] = "#%d" % (i + 1)
         # result construction: which parser output feeds which struct field
         out = None
         for bb, t in an.ok_sites():
@@ -89,7 +103,8 @@ class Builder:
                     fnames = [f["name"] for f in a["variants"][0]["fields"]]
                     m = []
                     for fn_, op in zip(fnames, v[2]):
-                        m.append("%s<-#%s" % (fn_, self.which_call(an, calls, op)))
+                        w = self.which_call(an, calls, op)
+                        m.append("%s<-#%s" % (fn_, w) if w != "?" else "%s<-%s" % (fn_, self.value_name(an, sy, op)))
                     out = "%s{%s}" % (adt.split("::")[-1], ",".join(m))
         g = G("seq", kids)
         if out:
@@ -128,7 +143,10 @@ class Builder:
             ci = closure_info(self.prog, an, t)
             if ci:
                 cb, cap = ci
-                return self.body_grammar(cb.path, cap, depth + 1)
+                saved = self.words
+                g_ = self.body_grammar(cb.path, cap, depth + 1, parent=getattr(self, "_parent", None))
+                self.words = saved
+                return g_
         if k == "call":
             s = short(t[1])
             a = t[2]
@@ -172,14 +190,36 @@ class Builder:
 
     TEMP = (("field", ("param", 1), 0), ("field", ("deref", ("param", 1)), 0))
 
+    def word_of(self, x):
+        """name of the previously parsed word a term denotes (`^1` = output #1 of the enclosing body, `#1` = of this body)"""
+        x0 = x
+        while x0[0] in ("ref", "deref"):
+            if x0[0] == "deref" and x0[1] == ("param", 1):
+                break
+            x0 = x0[1]
+        if x0[0] == "field" and x0[1] in (("param", 1), ("deref", ("param", 1))):
+            return self.words.get(("cap", x0[2]))
+        y = strip(x0)
+        if y[0] == "try":
+            y = strip(y[1])
+        if y[0] == "call" and isinstance(y[3], int):
+            return self.words.get(("call", y[3]))
+        return None
+
     def sem(self, t, width=24):
-        """semantic signature of a bit-level expression over the previously parsed 24-bit word, or None"""
+        """semantic signature `<word>:<signature>` of a bit-level expression over one previously parsed 24-bit word, or None"""
+        found = []
+
         def is_var(x):
-            x0 = x
-            while x0[0] in ("ref", "deref") and x0 not in self.TEMP:
-                x0 = x0[1]
-            return x0 in self.TEMP
-        return bitsem.signature(t, is_var, width)
+            w = self.word_of(x)
+            if w is not None:
+                found.append(w)
+                return True
+            return False
+        sg = bitsem.signature(t, is_var, width)
+        if sg is None or len(set(found)) != 1:
+            return None
+        return "%s:%s" % (found[0], sg)
 
     def value_name(self, an, sy, t):
         t0 = strip(t)
@@ -189,7 +229,19 @@ class Builder:
             for (bi, si, x) in an.terms.defs.whole[t0[1]]:
                 val = an.terms.rvalue(x) if si != "t" else an.terms.call_term(x, bi)
                 guards = []
+                int_switch = []
+                for (d, rel, vals) in an.atoms_at(bi):
+                    # integer switch (`match temp & 1 { 0 => .., _ => .. }`): one equality per listed value
+                    bt = sy.bin_type(d) if strip(d)[0] in ("bin", "cast") and as_cmp(strip(d), True) is None else None
+                    if bt is not None and bt.get("k") == "int" and rel in ("in", "notin") and len(vals) == 1:
+                        eq = ("bin", "Eq", d, ("const", int(next(iter(vals))), "u32"))
+                        sg = self.sem(eq if rel == "in" else ("un", "Not", eq))
+                        if sg is not None:
+                            guards.append(sg)
+                            int_switch.append(d)
                 for (d, tr) in an.bool_atoms_at(bi):
+                    if d in int_switch:
+                        continue
                     sg = self.sem(d if tr else ("un", "Not", d))
                     if sg is not None:
                         guards.append(sg)
@@ -207,7 +259,7 @@ class Builder:
             return t[1].split("::")[-1]
         sg = self.sem(t)
         if sg is not None and not (t[0] == "const"):
-            return "temp:" + sg
+            return sg
         c = as_cmp(t, True)
         if c:
             return "%s %s %s" % (self.expr(an, sy, c[1]), c[0], self.expr(an, sy, c[2]))
@@ -270,6 +322,13 @@ class Builder:
             a1 = unmut(can.terms.operand(apps[0][1]["args"][1]))
             if a0 == ("param", 2) and a1 == ("param", 4):
                 return "append(left,right)->left"
+        exts = [(bb, tt) for bb, tt in cb.calls() if short(cname(tt)) in ("Extend::extend", "Vec::<T, A>::extend")]
+        if len(rets) == 1 and rets[0] == ("param", 2) and len(exts) == 1 and not apps:
+            # `l.extend(r)` with the right vector by value: the same elements in the same order
+            a0 = unmut(can.terms.operand(exts[0][1]["args"][0]))
+            a1 = unmut(can.terms.operand(exts[0][1]["args"][1]))
+            if a0 == ("param", 2) and a1 == ("param", 4):
+                return "append(left,right)->left"
         return "other"
 
 
@@ -315,7 +374,7 @@ def run(prog, tier, res):
     grammars = {"chronobox_fifo": top}
     for p, g in bld.fn_cache.items():
         grammars[p.split("::")[-1]] = g
-    rendered = {k: strip_refs(g).render() for k, g in grammars.items()}
+    rendered = {k: canon(g).render() for k, g in grammars.items()}
     for name, want in spec["grammar"].items():
         got = rendered.get(name)
         if got == want:
@@ -378,6 +437,68 @@ def run(prog, tier, res):
     else:
         res.violate(R5, fn, "range", "channel conversion accepts %s (stores %s); the property says channel < 59" % (ranges_of(allowed), stored), prog.bodies[fn].where())
     res.undecided = ["longest-prefix, untouched remainder and split-invariance as behaviours over all cut positions follow from the decided grammar facts plus winnow's checkpoint contract (trusted, not analysed)"]
+
+
+def canon(g, top=True):
+    """canonical form of a parser function's grammar: nested seq!{..} flattened into the enclosing sequence, zero-width
+    `empty.value(v)` nodes folded into the field wiring, consumers renumbered, ignored fixed-width consumers under
+    `void` merged into one `skip[w]`"""
+    g = strip_refs(g)
+
+    def void_norm(x):
+        if x.kind == "seq":
+            kids, acc = [], 0
+            for k in [y for z in x.kids for y in (void_norm(z).kids if void_norm(z).kind == "seq" else [void_norm(z)])]:
+                if k.kind in ("leaf", "take", "skip") and k.attr.get("w") is not None and not k.kids:
+                    acc += k.attr["w"]
+                    continue
+                if acc:
+                    kids.append(G("skip", w=acc))
+                    acc = 0
+                kids.append(k)
+            if acc:
+                kids.append(G("skip", w=acc))
+            return G("seq", kids)
+        return x
+
+    def walk(x):
+        if x.kind == "void":
+            a = {k: v for k, v in x.attr.items()}
+            return G("void", [void_norm(walk(k)) for k in x.kids], **a)
+        return G(x.kind, [walk(k) for k in x.kids], **x.attr)
+    g = walk(g)
+    if g.kind == "seq" and g.kids and g.kids[-1].kind == "seq" and g.kids[-1].attr.get("out") and not g.attr.get("out"):
+        inner = g.kids[-1]
+        outer = g.kids[:-1]
+        n_outer = len(outer)
+        out = inner.attr["out"]
+        # outer outputs: ^k -> #k ; inner outputs: renumber after dropping the zero-width value nodes
+        new_kids = list(outer)
+        remap = {}
+        values = {}
+        for k in inner.kids:
+            idx = k.attr.get("#")
+            if k.kind == "value" and len(k.kids) == 1 and k.kids[0].kind == "leaf" and k.kids[0].attr.get("w") == 0:
+                values[idx] = k.attr.get("v")
+                continue
+            new_kids.append(k)
+            remap[idx] = len(new_kids)
+        import re as _re
+
+        def fix(m):
+            fld, idx = m.group(1), int(m.group(2))
+            if idx in values:
+                return "%s<-%s" % (fld, values[idx])
+            return "%s<-#%d" % (fld, remap.get(idx, 0))
+        out = _re.sub(r"(\w+)<-#(\d+)(?![\d:])", fix, out)
+        out = out.replace("^", "#")
+        kids2 = []
+        for i, k in enumerate(new_kids):
+            a = dict(k.attr)
+            a["#"] = i + 1
+            kids2.append(G(k.kind, k.kids, **a))
+        g = G("seq", kids2, out=out)
+    return g
 
 
 def strip_refs(g):
